@@ -211,10 +211,21 @@ def mkRow (id type : String) (edges : List (String × String)) (act : Option Str
              flowName := [], dests := dests.map String.toList, resultKey := none, nodeOk := true },
     refAct := (match ract with | some x => some x | none => act).map String.toList }
 
-def exTests : List Str := ["has_any_word".toList, "has_group".toList]
+/-- a row with fixed outcomes (`start_new_flow`, `call_webhook`, `transfer_airtime`): the content of
+its own action, the key of the result it reads; optional: a different action content in the
+documentation's table -/
+def mkFix (id type : String) (edges : List (String × String)) (own : String) (key : Option String := none)
+    (ract : Option String := none) : CoreSheet.CRow :=
+  { row := { (mkRow id type edges none).row with ownAction := some own.toList, resultKey := key.map String.toList },
+    refAct := some ((ract.getD own).toList) }
+
+def exTests : List Str :=
+  ["has_any_word".toList, "has_group".toList, "has_only_text".toList, "has_category".toList]
 
 /-- a message, a wait with timeout left by two tests, an unconditional edge (default) and a
-"No Response" edge, a join into a group split, a value split, joins, a `hard_exit`, a `go_to` with two
+"No Response" edge, a join into a group split, a value split, joins, a `start_new_flow` row left
+on Completed and on Expired, a `call_webhook` row left on Success and unconditionally (= Failure), a
+`transfer_airtime` row left on Failure and on Success (any case of the letters), a `hard_exit`, a `go_to` with two
 edges back to the first row (a cycle), a row after them with blank `from` (it follows the last
 node-producing row), a `loose_exit` -/
 def exRows : List CoreSheet.CRow :=
@@ -227,6 +238,11 @@ def exRows : List CoreSheet.CRow :=
     mkRow "m" "send_message" [("g", "members"), ("w", "")] (some "M"),
     mkRow "v" "split_by_value" [("g", "")] none "" "@fields.x",
     mkRow "z" "send_message" [("v", "7"), ("t", "")] (some "Z"),
+    mkFix "f" "start_new_flow" [("m", "")] "enter F",
+    mkRow "fc" "send_message" [("f", "Completed")] (some "FC"),
+    mkFix "h" "call_webhook" [("f", "expired"), ("fc", "")] "hook H" (some "res"),
+    mkFix "p" "transfer_airtime" [("h", "Success")] "air P" (some "res"),
+    mkRow "pf" "send_message" [("h", ""), ("p", "failure"), ("p", "SUCCESS")] (some "PF"),
     mkRow "" "hard_exit" [("g", "")] none,
     mkRow "" "go_to" [("z", ""), ("v", "")] none "" "" "" "" "" none ["a"],
     mkRow "q" "send_message" [("", "")] (some "Q"),
@@ -239,23 +255,25 @@ def bothTraces (rows : List CoreSheet.CRow) (env : Nat → Nat) (n : Nat) : Opti
   | .ok out, .ok r => some (trace ⟨false, true⟩ (Compile.renderOut out) env n, trace ⟨false, true⟩ r env n)
   | _, _ => none
 
-/-- non-vacuity: the sheet is in the fragment, the compiler model compiles it (ten nodes), the
-reference interpretation exists (ten nodes) — and, as the theorem says, the traces agree (checked
-here for two answer streams) -/
+/-- non-vacuity: the sheet is in the fragment, the compiler model compiles it (15 nodes), the
+reference interpretation exists (15 nodes) — and, as the theorem says, the traces agree (checked
+here for three answer streams, the third one passing the three rows with fixed outcomes) -/
 example : CoreSheet.inFragment exRows = true ∧
     (∃ out, Compile.compile RefFlow.noArgsTests exTests (exRows.map CoreSheet.toEvent) = .ok out ∧
-      out.nodes.length = 10) ∧
-    (∃ r, RefFlow.refFlow (exRows.map CoreSheet.toRRow) = .ok r ∧ r.nodes.length = 10) ∧
+      out.nodes.length = 15) ∧
+    (∃ r, RefFlow.refFlow (exRows.map CoreSheet.toRRow) = .ok r ∧ r.nodes.length = 15) ∧
     (bothTraces exRows (fun k => k) 8).map (fun p => decide (p.1 = p.2)) = some true ∧
-    (bothTraces exRows (fun k => 2 * k + 1) 8).map (fun p => decide (p.1 = p.2)) = some true := by
-  refine ⟨by decide +kernel, ?_, ?_, by decide +kernel, by decide +kernel⟩
+    (bothTraces exRows (fun k => 2 * k + 1) 8).map (fun p => decide (p.1 = p.2)) = some true ∧
+    (bothTraces exRows (fun k => if k = 0 then 3 else if k = 2 then 1 else 0) 12).map
+      (fun p => decide (p.1 = p.2 ∧ p.1.length = 12)) = some true := by
+  refine ⟨by decide +kernel, ?_, ?_, by decide +kernel, by decide +kernel, by decide +kernel⟩
   · have h : (match Compile.compile RefFlow.noArgsTests exTests (exRows.map CoreSheet.toEvent) with
-        | .ok out => decide (out.nodes.length = 10) | .error _ => false) = true := by decide +kernel
+        | .ok out => decide (out.nodes.length = 15) | .error _ => false) = true := by decide +kernel
     split at h
     · rename_i out ho; exact ⟨out, ho, by simpa using h⟩
     · cases h
   · have h : (match RefFlow.refFlow (exRows.map CoreSheet.toRRow) with
-        | .ok r => decide (r.nodes.length = 10) | .error _ => false) = true := by decide +kernel
+        | .ok r => decide (r.nodes.length = 15) | .error _ => false) = true := by decide +kernel
     split at h
     · rename_i r hr; exact ⟨r, hr, by simpa using h⟩
     · cases h
@@ -271,6 +289,11 @@ def refuted (rows : List CoreSheet.CRow) (n : Nat) : Bool :=
 C02 that is about action content, a parameter of both models) -/
 theorem fragment_needs_same_action :
     refuted [mkRow "a" "send_message" [("start", "")] (some "A") "" "" "" "" "" (some "B")] 1 = true := by
+  decide +kernel
+
+/-- clause "a row with fixed outcomes performs its own action, as the documentation describes it" -/
+theorem fragment_needs_same_own_action :
+    refuted [mkFix "f" "start_new_flow" [("start", "")] "enter F" none (some "enter G")] 1 = true := by
   decide +kernel
 
 /-- clause "no node identifier is given": a given `_nodeId` that collides with an identifier the
